@@ -204,9 +204,11 @@ def run(F, R, tier):
                     "signed body origins %s vs forwarded %s" % (sorted(map(str, bo)), sorted(map(str, fo))))
             # the sent request is the from_parts result
             sent_local = base_local(B, snd[0][3]["args"][1])
-            R.check(sent_local == fp[0][3]["dest"]["l"] and len(B.defs[sent_local]) == 1, "C04.R1",
+            all_sent = {base_local(B, c[3]["args"][1]) for c in snd}
+            R.check(all_sent == {fp[0][3]["dest"]["l"]} and len(B.defs[sent_local]) == 1 and len(fp) == 1, "C04.R1",
                     "C04.R1:%s:sent-is-rebuilt" % HRS, q.where(B, snd[0][0]),
-                    "the request sent is the single from_parts(head, Full(body)) value (never reassigned)")
+                    "every send (%d site(s)) forwards the single from_parts(head, Full(body)) value (never reassigned, built once)" % len(snd),
+                    "the signing route sends request objects %s; expected only the one from_parts(signed head, body) value" % sorted(map(str, all_sent)))
             # no other mutation of the sent request
             muts = []
             for bi, w, r, t in B.calls:
